@@ -1,4 +1,5 @@
 import Pypika.RenderEqns
+import Pypika.Names
 import Pypika.Props.C06
 /-!
 # C10 — column references resolve to exactly the source they were bound to
@@ -51,17 +52,6 @@ theorem schema_outermost_first (q : Option Char) (a b : Str) (rest : List Str) :
 
 /-! ### invented sub-query names -/
 
-/-- the name invented for the k-th un-aliased sub-query of a statement -/
-def sqName (k : Nat) : Str := 's' :: 'q' :: natText k
-
-/-- `from_` / `join` on a statement whose counter is `count`, for a sub-query carrying its own counter `sub`:
-    the name given and the new counter -/
-def tag (count sub : Nat) : Str × Nat := (sqName (max count sub), max count sub + 1)
-
-def tagAll : Nat → List Nat → List Str
-  | _, [] => []
-  | count, sub :: rest => (tag count sub).1 :: tagAll (tag count sub).2 rest
-
 theorem sqName_inj {a b : Nat} (h : sqName a = sqName b) : a = b := by
   have : natText a = natText b := by simpa [sqName] using h
   exact C06.natStr_inj this
@@ -91,5 +81,43 @@ theorem invented_names_distinct (count : Nat) (subs : List Nat) : (tagAll count 
 
 /-- non-vacuity -/
 example : tagAll 0 [0, 0, 2, 0] = [sqName 0, sqName 1, sqName 2, sqName 3] := by decide
+
+/-! `from_` and `join` name an un-aliased sub-query by different rules: `from_` continues after the sub-query's own
+counter (`max`), `join` (`_tag_subquery`) uses the statement's counter alone.  The harness runs `tagCalls` against the
+names the real calls give (driver op `tagcalls`). -/
+
+theorem tagStep_lt (count : Nat) (c : TagCall) : ∃ k, count ≤ k ∧ (tagStep count c).1 = sqName k ∧ (tagStep count c).2 = k + 1 := by
+  cases c with
+  | from_ sub => exact ⟨max count sub, Nat.le_max_left _ _, rfl, rfl⟩
+  | join => exact ⟨count, Nat.le_refl _, rfl, rfl⟩
+
+theorem tagCalls_ge (count : Nat) (cs : List TagCall) : ∀ n ∈ tagCalls count cs, ∃ k, count ≤ k ∧ n = sqName k := by
+  induction cs generalizing count with
+  | nil => intro n hn; cases hn
+  | cons c rest ih =>
+    intro n hn
+    obtain ⟨k, hk, e1, e2⟩ := tagStep_lt count c
+    simp only [tagCalls, List.mem_cons] at hn
+    rcases hn with h | h
+    · exact ⟨k, hk, h.trans e1⟩
+    · rw [e2] at h
+      obtain ⟨k', hk', e⟩ := ih _ n h
+      exact ⟨k', by omega, e⟩
+
+/-- **the names invented by any mix of `from_` and `join` calls on one statement are pairwise distinct** -/
+theorem invented_names_distinct_calls (count : Nat) (cs : List TagCall) : (tagCalls count cs).Nodup := by
+  induction cs generalizing count with
+  | nil => simp [tagCalls]
+  | cons c rest ih =>
+    obtain ⟨k, hk, e1, e2⟩ := tagStep_lt count c
+    simp only [tagCalls, List.nodup_cons]
+    refine ⟨?_, ih _⟩
+    intro hmem
+    rw [e2] at hmem
+    obtain ⟨k', hk', e⟩ := tagCalls_ge _ _ _ hmem
+    have := sqName_inj (e1.symm.trans e)
+    omega
+
+example : tagCalls 0 [.from_ 0, .join, .from_ 1, .from_ 2, .join] = [sqName 0, sqName 1, sqName 2, sqName 3, sqName 4] := by decide
 
 end Pypika.C10
